@@ -214,7 +214,16 @@ func gosymNewRunner(uuid string, wkr *worker) *remoteRunner {
 var gosymProbeOK, gosymProbeBroken, gosymBootOK bool
 var gosymProbeUUIDs []string
 
-func gosymProbeRunning(wkr *worker) ([]string, bool, bool) { return gosymProbeUUIDs, gosymProbeBroken, gosymProbeOK }
+var gosymConcurrentUpdate bool // something else (instance-list sync, a start, a kill) touches the worker while the probe is in flight
+
+func gosymProbeRunning(wkr *worker) ([]string, bool, bool) {
+	if gosymConcurrentUpdate {
+		wkr.mtx.Lock()
+		wkr.updated = wkr.updated.Add(time.Second)
+		wkr.mtx.Unlock()
+	}
+	return gosymProbeUUIDs, gosymProbeBroken, gosymProbeOK
+}
 func gosymProbeBooted(wkr *worker) (bool, []byte)          { return gosymBootOK, nil }
 
 // GosymH_C15_probe: a worker whose boot or run probe has been failing for at least the timeout is shut down
@@ -333,4 +342,61 @@ func GosymH_C15_poolsync() {
 			gosym_Reach("dropped")
 		}
 	}
+}
+
+// GosymH_C14_probe: what a probe does to the pool's books.  A worker on which the probe saw a live crunch-run
+// process for container c0 is never left looking free for new work (Idle, nothing running or starting) --
+// whether or not the worker was touched by somebody else while the probe was in flight, and in particular for a
+// worker inherited from a previous dispatcher process (state Unknown): otherwise the scheduler would stop
+// waiting for it and start c0 a second time.
+func GosymH_C14_probe() {
+	wp := gosymPool()
+	gosym_SetNow(gosymNowW)
+	w, _ := gosymWorker(wp, 0)
+	// the timeouts are the subject of the C15 probe run; here the clock stands still
+	w.probed, w.busy, w.updated = gosymNowW, gosymNowW, gosymNowW
+	gosymProbeOK, gosymProbeBroken, gosymBootOK = gosym_Fork("probe-ok"), false, gosym_Fork("boot-ok")
+	gosymProbeUUIDs = nil
+	live := gosym_Fork("a-crunch-run-process-for-c0-is-alive")
+	if live {
+		gosymProbeUUIDs = []string{"c0"}
+	}
+	known := gosym_Fork("c0-already-on-the-books")
+	if known {
+		w.running["c0"] = gosymNewRunner("c0", w)
+		if w.state == StateIdle {
+			w.state = StateRunning
+		}
+	}
+	// a process the pool does not know about exists only on a worker inherited from a previous dispatcher
+	// process (state Unknown): every start by this process puts the container on the books first
+	if live && !known && w.state != StateUnknown {
+		return
+	}
+	if known && (w.state == StateUnknown || w.state == StateBooting) {
+		return // nothing is on the books of a worker that has not completed a probe yet
+	}
+	gosymConcurrentUpdate = gosym_Fork("worker-touched-while-probe-in-flight")
+	state0 := w.state
+	w.probeAndUpdate()
+	gosym_Quiesce()
+	gosymConcurrentUpdate = false
+	if state0 == StateShutdown {
+		return
+	}
+	_, inRunning := w.running["c0"]
+	_, inStarting := w.starting["c0"]
+	if live && gosymProbeOK {
+		gosym_Assert(!(w.state == StateIdle && !inRunning && !inStarting), "worker-with-a-live-process-is-not-offered-as-idle")
+		gosym_Reach("live-process-seen")
+	}
+	if w.state == StateIdle {
+		gosym_Assert(len(w.running)+len(w.starting) == 0, "idle-worker-has-nothing-on-the-books")
+	}
+	if state0 == StateUnknown && w.state == StateIdle {
+		// an inherited worker becomes usable only on the strength of a probe whose process list was applied
+		gosym_Assert(!gosymConcurrentUpdate || !live, "inherited-worker-becomes-idle-only-after-an-applied-probe")
+		gosym_Reach("inherited-worker-became-idle")
+	}
+	gosym_Reach("done")
 }
